@@ -14,7 +14,8 @@ func rpcOracle(prop string) func(c *Case) Oracle {
 		var d *dealerPart
 		o := newComposite(c, prop, func(w *World) []Part {
 			d = newDealerPart(w)
-			return []Part{d}
+			// the broker model judges the pub/sub traffic of the slow-caller scenario
+			return []Part{newBrokerPart(w), d}
 		})
 		o.finishStats = func(st *CaseStats) {
 			for _, c := range d.calls {
@@ -539,5 +540,42 @@ func genRPC(t *rapid.T, profile string) *Case {
 	maxOps := 35
 	ops := rapid.SliceOfN(rapid.Custom(func(t *rapid.T) Op { return g.op(t) }), 1, maxOps).Draw(t, "ops")
 	c.Ops = ops
+	if profile == "C02" && pct(t, 12, "slowcaller") {
+		appendSlowCaller(t, c)
+	}
 	return c
+}
+
+// appendSlowCaller adds three in-process sessions and a closing scenario: a
+// caller whose outbound queue is full at the moment its callee answers finally
+// (it stopped reading for a while) and that reads again within the router's
+// result-retry period. It keeps reading from then on, so it must get its one
+// final reply.
+func appendSlowCaller(t *rapid.T, c *Case) {
+	n := len(c.Sess)
+	caller, callee, other := n, n+1, n+2
+	q := pick(t, []int{1, 2, 8}, "slowq")
+	c.Sess = append(c.Sess,
+		SessCfg{Realm: c.Sess[0].Realm, Roles: fullRoles(), QSize: q},
+		SessCfg{Realm: c.Sess[0].Realm, Roles: fullRoles()},
+		SessCfg{Realm: c.Sess[0].Realm, Roles: fullRoles()})
+	call := Op{K: "call", S: caller, URI: "verif.slow", Args: []V{VInt(7)}}
+	if pct(t, 30, "slowtimeout") {
+		call.Opts = []KV{{"timeout", VI64(pick(t, []int64{50, 1000, 120000}, "slowto"))}}
+	}
+	c.Ops = append(c.Ops,
+		Op{K: "register", S: callee, URI: "verif.slow"},
+		Op{K: "subscribe", S: caller, URI: "verif.fill"},
+		call,
+		Op{K: "stall", S: caller})
+	for i := 0; i < q+uni(t, 3, "over"); i++ {
+		c.Ops = append(c.Ops, Op{K: "publish", S: other, URI: "verif.fill", Args: []V{VInt(i)}})
+	}
+	c.Ops = append(c.Ops,
+		Op{K: "yield", S: callee, Ref: "inv:-1:-1", Args: []V{VStr("late")}, Kw: []KV{{"k", VInt(1)}}},
+		Op{K: "advance", Ns: pick(t, []int64{0, 1e6, 2e6, 500e6, 40e9, 61e9}, "slowd")},
+		Op{K: "resume", S: caller},
+		Op{K: "advance", Ns: pick(t, []int64{1e6, 1e9, 70e9}, "slowa")},
+		Op{K: "advance", Ns: 70e9},
+		Op{K: "publish", S: other, URI: "verif.fill", Args: []V{VStr("after")}})
 }
